@@ -211,6 +211,15 @@ func (m *Mutex) Lock() {
 	}
 	note("MutexLock", unsafe.Pointer(m), 0)
 }
+// TryLock: one attempt, never blocks (sync.Mutex has it since go1.18)
+func (m *Mutex) TryLock() bool {
+	y("TryLock", unsafe.Pointer(m), nil)
+	if atomic.CompareAndSwapInt32(&m.locked, 0, 1) {
+		note("MutexLock", unsafe.Pointer(m), 0)
+		return true
+	}
+	return false
+}
 func (m *Mutex) Unlock() {
 	y("Unlock", unsafe.Pointer(m), nil)
 	note("MutexUnlock", unsafe.Pointer(m), 0)
